@@ -15,7 +15,7 @@ pub const SPEC: PropSpec = PropSpec {
     level: "exploration",
     rule: "Cases = (document bytes, target type, entry point from_str / from_reader with piece size 1 or whole). Documents: serializations of generated family values under token-level mutation (insert / delete / duplicate / swap / splice of start tags, end tags, empty tags, text, whitespace, CDATA, comments, DOCTYPE between any tokens incl. between two texts, PIs, XML declarations, valid / unknown / zero / unterminated entity and character references, xsi:nil with and without its namespace declaration, duplicate and malformed attributes, BOM), truncation at every byte, and token soup with no valid base. Targets: the 16 family types, the 6 overlapped-list shapes and 22 further targets (String, numbers, bool, char, unit, tuple, Option, Vec, HashMap/BTreeMap, a struct with an IgnoredAny field, unit struct, Option fields without skip, enums). Every call runs under catch_unwind; a panic is a violation (signature = file:line + message); a case that makes no progress for 30 s (and again 90 s when re-run alone in journal mode) is a violation; Ok and Err are both fine. Non-trivial = the document reached the deserializer with at least one start tag.",
     assumptions: &["documents are valid UTF-8 strings for from_str (the API requires &str); from_reader additionally receives the same bytes", "termination is decided by the stall detector on logical progress (cases finished), not by a deadline on the whole run"],
-    required: &["docs_with_start_tag", "results.ok", "results.err", "entry.from_str", "entry.from_reader", "mutation.doctype_between_texts", "mutation.insert", "mutation.delete", "mutation.duplicate", "mutation.splice", "mutation.truncate", "mutation.soup", "targets_seen_all"],
+    required: &["docs_with_start_tag", "results.ok", "results.err", "entry.from_str", "entry.from_reader", "mutation.doctype_between_texts", "mutation.insert", "mutation.delete", "mutation.duplicate", "mutation.splice", "mutation.truncate", "mutation.soup", "mutation.xsi_nil_attr", "mutation.attr_added", "targets_seen_all"],
     run,
     replay,
     thorough_layers: &[("plain", 100), ("asan", 20), ("miri", 1)],
@@ -24,7 +24,7 @@ pub const SPEC: PropSpec = PropSpec {
 };
 
 fn post(c: &mut BTreeMap<String, u64>) {
-    let total = (family().len() + ovl_family().len() + extra_targets().len()) as u64;
+    let total = all_targets().len() as u64;
     let seen = c.iter().filter(|(k, v)| k.starts_with("target.") && **v > 0).count() as u64;
     c.insert("targets_total".into(), total);
     c.insert("targets_seen".into(), seen);
@@ -53,6 +53,25 @@ pub const ATOMS: &[&str] = &[
     "</>", "<>", "< >", "</ t_s>", "<t_s", "<", ">", "]]>", "\u{FEFF}", "<$text>", "<@a/>", "<xml:x/>", "<a:b xmlns:a=\"u\"/>", "<t_pair>p</t_pair>", "<k_m>", "</k_m>", "<key>v</key>",
 ];
 
+pub const ATTR_ATOMS: &[&str] = &[
+    " xmlns:xsi=\"http://www.w3.org/2001/XMLSchema-instance\" xsi:nil=\"true\"",
+    " xmlns:xsi=\"http://www.w3.org/2001/XMLSchema-instance\" xsi:nil=\"1\"",
+    " xmlns:n=\"http://www.w3.org/2001/XMLSchema-instance\" n:nil=\"true\"",
+    " xmlns:xsi=\"http://www.w3.org/2001/XMLSchema-instance\" xsi:nil=\"false\"",
+    " xsi:nil=\"true\"",
+    " nil=\"true\"",
+    " xmlns:xsi=\"u\" xsi:nil=\"true\"",
+    " a_k=\"dup\" a_k=\"dup\"",
+    " a_id=\"300\"",
+    " a_id=\"x\"",
+    " zz=\"1\"",
+    " xmlns=\"u\"",
+    " xml:space=\"preserve\"",
+    " a",
+    " a=",
+    " ='v'",
+];
+
 pub fn mutate_tokens(r: &mut Rng, doc: &str, other: &str, loc: &mut Local) -> String {
     let toks: Vec<(usize, usize)> = tokenize(doc.as_bytes(), CFG_NEUTRAL)
         .iter()
@@ -65,7 +84,7 @@ pub fn mutate_tokens(r: &mut Rng, doc: &str, other: &str, loc: &mut Local) -> St
     }
     let n = 1 + r.below(4);
     for _ in 0..n {
-        match r.below(8) {
+        match r.below(10) {
             0 | 1 => {
                 let i = r.below(parts.len() + 1);
                 parts.insert(i, r.pick(ATOMS).to_string());
@@ -119,6 +138,18 @@ pub fn mutate_tokens(r: &mut Rng, doc: &str, other: &str, loc: &mut Local) -> St
                     let i = r.below(parts.len() + 1);
                     parts.insert(i, "a<!DOCTYPE y>b".to_string());
                     *loc.muts.entry("mutation.doctype_between_texts").or_insert(0) += 1;
+                }
+            }
+            7 | 8 => {
+                // add attributes to a start / empty tag (xsi:nil with and without its namespace, duplicates, junk)
+                let tags: Vec<usize> = (0..parts.len()).filter(|i| parts[*i].starts_with('<') && parts[*i].ends_with('>') && !parts[*i].starts_with("</") && !parts[*i].starts_with("<!") && !parts[*i].starts_with("<?")).collect();
+                if !tags.is_empty() {
+                    let i = tags[r.below(tags.len())];
+                    let add = *r.pick(ATTR_ATOMS);
+                    let t = parts[i].clone();
+                    let cut = if t.ends_with("/>") { t.len() - 2 } else { t.len() - 1 };
+                    parts[i] = format!("{}{}{}", &t[..cut], add, &t[cut..]);
+                    *loc.muts.entry(if add.contains("nil") { "mutation.xsi_nil_attr" } else { "mutation.attr_added" }).or_insert(0) += 1;
                 }
             }
             _ => {
@@ -201,9 +232,31 @@ fn run_doc(ctx: &mut Ctx, loc: &mut Local, all: &[TypeOps], doc: &str, own: usiz
     true
 }
 
+/// A valid document of one of the generator-equipped types; `own` indexes into `all_targets()`.
+pub fn base_doc(r: &mut Rng, fam: &[TypeOps], ovl: &[(TypeOps, fn(&mut Rng, usize) -> Box<dyn Val>)], opt: &[TypeOps], cfgs: &[SerCfg]) -> (usize, String) {
+    match r.below(10) {
+        0 | 1 => {
+            let i = r.below(ovl.len());
+            let v = (ovl[i].1)(r, 3);
+            (fam.len() + i, v.ser(&SerCfg::plain()).unwrap_or_default())
+        }
+        2 | 3 => {
+            let i = r.below(opt.len());
+            let v = (opt[i].gen.unwrap())(r);
+            (fam.len() + ovl.len() + i, v.ser(&cfgs[r.below(cfgs.len())]).unwrap_or_default())
+        }
+        _ => {
+            let i = r.below(fam.len());
+            let v = (fam[i].gen.unwrap())(r);
+            (i, v.ser(&cfgs[r.below(cfgs.len())]).unwrap_or_default())
+        }
+    }
+}
+
 pub fn all_targets() -> Vec<TypeOps> {
     let mut all = family();
     all.extend(ovl_family().into_iter().map(|(o, _)| o));
+    all.extend(optional_family());
     all.extend(extra_targets());
     all
 }
@@ -214,23 +267,15 @@ fn run(ctx: &mut Ctx) {
     let small = ctx.layer == "miri";
     let all = all_targets();
     let fam = family();
+    let opt = optional_family();
     let ovl = ovl_family();
     let mut r = ctx.rng(13);
     let cfgs = SerCfg::all();
-    let n = if small { 40 } else { ctx.scaled(t.pick(60_000, 1_500_000)) / ctx.nshards as u64 };
+    let n = if small { 40 } else { ctx.scaled(t.pick(250_000, 3_000_000)) / ctx.nshards as u64 };
     let mut prev = String::from("<s_inner a_id=\"1\"><t_v>v</t_v></s_inner>");
     'outer: for k in 0..n {
         // a valid base document
-        let (own, doc) = if r.chance(1, 5) {
-            let i = r.below(ovl.len());
-            let v = (ovl[i].1)(&mut r, 3);
-            (fam.len() + i, v.ser(&SerCfg::plain()).unwrap_or_default())
-        } else {
-            let i = r.below(fam.len());
-            let v = (fam[i].gen.unwrap())(&mut r);
-            let cfg = &cfgs[r.below(cfgs.len())];
-            (i, v.ser(cfg).unwrap_or_default())
-        };
+        let (own, doc) = base_doc(&mut r, &fam, &ovl, &opt, &cfgs);
         // the unmodified document for all-target cross deserialization (1 in 8)
         if k % 8 == 0 && !run_doc(ctx, &mut loc, &all, &doc, own, &mut r) {
             break 'outer;
